@@ -5,7 +5,7 @@ specification (FloorMC).  Times are ticks of 0.25 time units; -1 is "infinite / 
 import itertools
 import random
 
-DEV_DEFAULTS = dict(ups=[], cyc=0, cap=-1, delay=0, budget=-1, pval=0, bsrc=-1, bsize=0, req={}, pred='all',
+DEV_DEFAULTS = dict(ups=[], cyc=0, cap=-1, delay=0, budget=-1, pval=0, bsrc=-1, bmix=False, bsize=0, req={}, pred='all',
                     vadd=0, qset=0, qinc=False, cycmod=0, offmod=0, foff=0, late=False,
                     wodur=0, wocap=0, wocost=0, gin=0, gout=0, vups=[], members=[], inputs=[], outputs=[])
 
@@ -207,7 +207,7 @@ def gen_resources(rng, count=100):
         if rng.random() < 0.4:
             pools['B'] = rng.choice([1, 2])
         devs = [src(rng.choice([1, 2, 3]), rng.choice([3, 5, -1]), pval=1)]
-        shape = rng.choice(['par', 'ser', 'two-lines'])
+        shape = rng.choice(['par', 'ser', 'two-lines', 'junction', 'zero-series'])
 
         def req():
             r = {'A': rng.choice([1, 1, 2])}
@@ -216,7 +216,22 @@ def gen_resources(rng, count=100):
             if rng.random() < 0.15:
                 r = {}
             return r
-        if shape == 'par':
+        if shape == 'junction':      # a pass-through device in front of machines that need the same pool
+            devs[0] = src(rng.choice([2, 3, 4]), rng.choice([3, 5, -1]), pval=1)
+            devs.append(dev(rng.choice(['junction', 'gate']), [1]))
+            ps = []
+            for _ in range(rng.choice([2, 3])):
+                devs.append(dev('processor', [2], cyc=rng.choice([1, 2, 5]), req={'A': 1}))
+                ps.append(len(devs))
+            devs.append(dev('sink', ps, cyc=0))
+            pools['A'] = rng.choice([2, 2, 3])
+        elif shape == 'zero-series':  # zero-cycle machines in series sharing one unit: several finishes in one instant
+            devs[0] = src(rng.choice([0, 1, 2]), rng.choice([2, 3, 4]), pval=1)
+            devs.append(dev('processor', [1], cyc=0, req={'A': 1}))
+            devs.append(dev('processor', [2], cyc=rng.choice([0, 0, 1]), req={'A': 1}))
+            devs.append(dev('sink', [3], cyc=0))
+            pools['A'] = 1
+        elif shape == 'par':
             ps = []
             for _ in range(rng.choice([2, 3])):
                 devs.append(dev('processor', [1], cyc=rng.choice([1, 2, 3, 4]), req=req()))
@@ -378,7 +393,8 @@ def gen_batch(rng, count=60):
     while len(out) < count:
         bsrc = rng.choice([-1, -1, 1, 2, 3, 3, 0])
         devs = [src(rng.choice([1, 2, 3]), rng.choice([4, 6, 9, -1]), pval=rng.choice([0, 1, 2]), bsrc=bsrc)]
-        shape = rng.choice(['b', 'bb', 'buf-b', 'b-buf-b', 'b-proc-b', 'buf-b-buf', 'b-jun-slow', 'b-jun-slow'])
+        devs[0]['bmix'] = bsrc > 0 and rng.random() < 0.4
+        shape = rng.choice(['b', 'bb', 'buf-b', 'b-buf-b', 'b-proc-b', 'buf-b-buf', 'b-jun-slow', 'b-jun-slow', 'buf', 'buf'])
         biggest = max(bsrc, 1)
         for tok in shape.split('-'):
             up = [len(devs)]
@@ -395,7 +411,7 @@ def gen_batch(rng, count=60):
                 cap = rng.choice([biggest, biggest + 1, 2 * biggest, 6, -1])
                 if cap != -1:
                     cap = max(cap, biggest, 1)
-                devs.append(dev('buffer', up, cap=cap, delay=rng.choice([0, 0, 1, 2])))
+                devs.append(dev('buffer', up, cap=cap, delay=rng.choice([0, 0, 1, 2, 5, 10])))
             elif tok == 'proc':
                 devs.append(dev('processor', up, cyc=rng.choice([1, 2, 3]), vadd=rng.choice([0, 1])))
             elif tok == 'jun':
@@ -484,7 +500,8 @@ def gen_groups(rng, count=40):
     """shared-machine groups: two lines sharing a group, re-entrant flow, a two-machine group, a nested group"""
     out = []
     while len(out) < count:
-        shape = rng.choice(['shared', 'shared', 'reentrant', 'two-machine', 'nested'])
+        shape = rng.choice(['shared', 'shared', 'reentrant', 'two-machine', 'nested', 'gate-only', 'nested-inner-first',
+                            'batch-path', 'rework-path', 'multi-input'])
         devs = []
         script = []
         if shape in ('shared', 'two-machine'):
@@ -511,6 +528,52 @@ def gen_groups(rng, count=40):
                 t = rng.choice([2, 4])
                 script = [dict(t=t, call='block', dev=rng.choice([p1, p2])), dict(t=t + rng.choice([3, 6]), call='unblock', dev=p1),
                           dict(t=t + 7, call='unblock', dev=p2)]
+        elif shape == 'gate-only':      # a group made of a shared decision gate only (nothing in it holds a part)
+            devs.append(src(rng.choice([1, 2]), rng.choice([3, 5]), pval=1))
+            devs.append(src(rng.choice([2, 3]), rng.choice([2, 4]), pval=1))
+            devs.append(dev('gate', [], pred=rng.choice(['all', 'odd'])))
+            gin, gout = group_block(devs, [3])
+            devs.append(dev('gpath', [1], gin=gin, gout=gout))
+            devs.append(dev('gpath', [2], gin=gin, gout=gout))
+            devs.append(dev('processor', [len(devs) - 1], cyc=rng.choice([1, 3])))
+            devs.append(dev('handler', [len(devs) - 1], cyc=rng.choice([1, 2])))
+            devs.append(dev('sink', [len(devs) - 1, len(devs)], cyc=0))
+        elif shape == 'nested-inner-first':   # the inner group's path is the first device of the outer group
+            devs.append(src(rng.choice([1, 2, 3]), rng.choice([3, 5]), pval=1))
+            devs.append(src(rng.choice([2, 3]), rng.choice([2, 4]), pval=1))
+            devs.append(dev('processor', [], cyc=rng.choice([1, 2])))            # 3 inner machine
+            igin, igout = group_block(devs, [3])                                  # 4, 5
+            devs.append(dev('gpath', [], gin=igin, gout=igout))                   # 6 inner path = outer input
+            devs.append(dev('handler', [6], cyc=rng.choice([1, 2])))              # 7
+            ogin, ogout = group_block(devs, [6, 7], inputs=[6], outputs=[7])      # 8, 9
+            devs.append(dev('gpath', [1], gin=ogin, gout=ogout))                  # 10
+            devs.append(dev('gpath', [2], gin=ogin, gout=ogout))                  # 11
+            devs.append(dev('sink', [10], cyc=0))
+            devs.append(dev('sink', [11], cyc=rng.choice([0, 2])))
+        elif shape == 'batch-path':     # batches (from the source or from a batcher) are refused and later accepted at a path
+            devs.append(src(rng.choice([1, 2]), rng.choice([4, 6]), pval=1, bsrc=rng.choice([-1, 2, 3])))
+            devs.append(dev('batcher', [1], bsize=rng.choice([2, 3])))
+            devs.append(dev('processor', [], cyc=rng.choice([4, 6, 7])))
+            gin, gout = group_block(devs, [3])
+            devs.append(dev('gpath', [2], gin=gin, gout=gout))
+            devs.append(dev('sink', [len(devs)], cyc=0))
+        elif shape == 'rework-path':    # parts pass the same group path twice; the second hand-over is often refused
+            devs.append(src(rng.choice([1, 2, 3]), rng.choice([3, 5, 8]), pval=1))
+            devs.append(dev('junction', [1, 9]))                                  # 2
+            devs.append(dev('processor', [], cyc=rng.choice([2, 3, 4]), qinc=True))   # 3
+            gin, gout = group_block(devs, [3])                                    # 4, 5
+            devs.append(dev('gpath', [2], gin=gin, gout=gout))                    # 6
+            devs.append(dev('gate', [6], pred='qge3'))                            # 7
+            devs.append(dev('gate', [6], pred='qeq2'))                            # 8
+            devs.append(dev('buffer', [8], cap=rng.choice([1, 2, 3]), delay=rng.choice([0, 1])))   # 9
+            devs.append(dev('sink', [7], cyc=rng.choice([0, 2])))
+        elif shape == 'multi-input':    # a group with two input machines that need the same resource
+            devs.append(src(rng.choice([2, 3, 4]), rng.choice([3, 5]), pval=1))
+            devs.append(dev('processor', [], cyc=rng.choice([1, 2, 5]), req={'A': 1}))
+            devs.append(dev('processor', [], cyc=rng.choice([1, 2, 5]), req={'A': 1}))
+            gin, gout = group_block(devs, [2, 3], inputs=[2, 3], outputs=[2, 3])
+            devs.append(dev('gpath', [1], gin=gin, gout=gout))
+            devs.append(dev('sink', [len(devs)], cyc=0))
         elif shape == 'reentrant':
             devs.append(src(rng.choice([2, 3, 4]), rng.choice([2, 3, 4]), pval=1))
             devs.append(dev('processor', [], cyc=rng.choice([1, 2])))
@@ -537,7 +600,8 @@ def gen_groups(rng, count=40):
             t = rng.choice([3, 5])
             script += [dict(t=t, call=rng.choice(['fail', 'shutdown']), dev=rng.choice(procs), arg=0),
                        dict(t=t + rng.choice([2, 4]), call='restore', dev=procs[0])]
-        cfg = norm(dict(devs=devs, script=script, horizon=rng.choice([16, 24, 32])))
+        cfg = norm(dict(devs=devs, script=script, horizon=rng.choice([16, 24, 32]),
+                        pools={'A': rng.choice([1, 2, 2])} if shape == 'multi-input' else {}))
         cfg['family'] = 'groups'
         out.append(cfg)
     return out
